@@ -337,10 +337,13 @@ SPECS["C04"] = dict(
          "oracle: Open (Traffic)* Close per connection, Close iff Open, identity/loop/goroutine of every callback, OnClose error nil only with a local cause and non-nil only with a peer cause issued, stale async writes complete with net.ErrClosed, second-wave connections see no traffic, bytes or close they did not cause, "
          "CountConnections = opened - closed at quiescent points; non-trivial = a connection with a close requested from inside a callback or with concurrently fired causes; distinct = distinct (configuration, connection history)",
     assumptions=ENGINE_ASSUME,
-    overlay=["verifx/c04"] + LIFE_OVERLAY,
+    overlay=["verifx/c04"] + LIFE_OVERLAY + SHIM_OVERLAY,
+    instrument=SHIM_INSTR,
     max_parallel=12,
     jobs=engine_jobs("c04", "./verifx/c04", [
         dict(id="lifecycle", run="^TestC04Lifecycle$", quick=dict(shards=6, checks=150, timeout=600, shrinktime=30), thorough=dict(shards=4, checks=6000, timeout=3400, shrinktime=300)),
+        dict(id="loopexit", run="^TestC04LoopExit$", quick=dict(shards=2, checks=400, timeout=600, shrinktime=30), thorough=dict(shards=4, checks=4000, timeout=3400, shrinktime=120)),
+        dict(id="clientudp", run="^TestC04ClientUDP$", quick=dict(shards=2, checks=150, timeout=600, shrinktime=30), thorough=dict(shards=4, checks=6000, timeout=3400, shrinktime=120)),
     ]),
 )
 
